@@ -535,6 +535,9 @@ def monitor_exit(sh: Shadow, i: int, op: dict[str, Any], r: dict[str, Any]) -> N
         sh.flag("HARNESS", f"step {i}: the cancellation of the block was not delivered")
     # ---- trace shape
     trace = [s for s in res if s.startswith(("td+", "td-", "body"))]
+    for s in res:
+        if s.startswith("CLOSED-FLAG"):
+            sh.flag("C13", f"step {i}: Context.closed of context {c} read {s[12:]} (it is true from the beginning of teardown)")
     starts = [s for s in trace if s.startswith("td+")]
     ends = [s for s in trace if s.startswith("td-")]
     want_starts = [f"td+ {cb['id']} {be_name if cb['pass'] else '-'}" for cb in order]
